@@ -296,7 +296,8 @@ RaisedBy(s) ==
 XfWrap(s, ks) ==
     IF ~(xfdec /\ cur = "body") THEN ks
     ELSE IF ks = <<>> THEN <<"uxsd">>
-    ELSE IF s.op = "raise" /\ s.a \in BaseKinds THEN ks
+    \* a single non-Exception leaves the method as it is (a raise, or a classic fixture interrupted in setUp)
+    ELSE IF s.op \in {"raise", "failfixture"} /\ Len(ks) = 1 /\ ks[1] \in BaseKinds THEN ks
     ELSE <<"xfaild">>
 
 \* the unit ends: returns or raises; exceptions go through _got_user_exception
